@@ -266,6 +266,7 @@ def run_queries(tree, ts, q, discrete, want_arrays):
         p = prec if prec is not None else (0 if discrete else 17)
         b = True if ibl is None else ibl
         obs["resolved_root"] = r
+        obs["whole_roots"] = [int(u) for u in tree.roots]
         if r is not None:
             lab = q["labels"]
             if lab == "default":
@@ -303,6 +304,7 @@ def run_queries(tree, ts, q, discrete, want_arrays):
                 obs["T"] = math.ceil(math.log10(max(1, tree.time(r))))
                 obs["W"] = len("{0:.{1}f}".format(tree.time(r) - float(ts.nodes_time.min()), p))
                 obs["shape"] = estimate_shape()
+                obs["whole_leaves"] = [int(u) for u in tree.leaves()]
     finally:
         tree._ll_tree = proxy._ll
     return obs
@@ -453,10 +455,20 @@ def coq_newick_term(q, obs, discrete, N):
             fast = "(Some (FastOverflow %s))" % cz(obs["fast_bufsize"])
         else:
             fast = "(Some (FastOk %s %s))" % (cz(obs["fast_bufsize"]), cstr(f))
-    return ("c18_check_newick (mk_ctree %s %s %s %s %s) %s %s %s %s %s %s %s %s %s %s %s"
+    o = obs["out"]
+    if isinstance(o, str):
+        outs = "(OutStr %s)" % cstr(o)
+    elif o["err"] == "LibraryError" and "buffer" in o["msg"].lower():
+        outs = "OutOverflow"
+    else:
+        outs = "OutSkip"
+    if q["root"] is None and len(obs["whole_roots"]) != 1:
+        outs = "OutSkip"
+    return ("c18_check_newick (mk_ctree %s %s %s %s %s) %s %s %s %s %s %s %s %s %s %s %s %s %s %s"
             % (clist(a["lc"]), clist(a["rc"]), clist(a["ls"]), clist(a["par"]), clist(a["flags"]),
                cz(N), crose(r, kids), cz(obs["root_parent"]), toks, labs, "true" if ibl else "false",
-               cz(p), cz(obs["T"]), fast, cstr(obs["general"]), cz(obs["shape"]), cz(obs["W"])))
+               cz(p), cz(obs["T"]), fast, cstr(obs["general"]), cz(obs["shape"]), cz(obs["W"]),
+               clist(obs["whole_leaves"]), outs))
 
 
 # ----------------------------------------------------------------------------------
@@ -640,7 +652,8 @@ class Newick(Family):
                     for rest in forests(i + 1):
                         yield [p] + rest
             for parent in forests(0):
-                for fmask in ([(1 << n) - 1, 1, rng.randrange(1, 1 << n)] if quick else range(1, 1 << n)):
+                for fmask in ([(1 << n) - 1, 1, rng.randrange(1, 1 << n)] if quick else
+                              [(1 << n) - 1, 1] + [rng.randrange(1, 1 << n) for _ in range(3)]):
                     flags = [(fmask >> i) & 1 for i in range(n)]
                     tc = {"n": n, "parent": parent, "flags": flags, "times": [float(i) for i in range(n)],
                           "kind": "exh", "scheme": "int"}
@@ -649,7 +662,7 @@ class Newick(Family):
                         q["root"] = root
                         yield {"tree": tc, "q": q}
         # --- random structured -------------------------------------------------------
-        for _ in range(1500 if quick else 20000):
+        for _ in range(1500 if quick else 12000):
             n = rng.choice([1, 2, 3, 5, 8, 9, 10, 11, 12, 20, 33]) if rng.random() < 0.8 else rng.randrange(1, 60)
             tc = make_tree_case(rng, n)
             yield {"tree": tc, "q": make_query(rng, tc)}
@@ -960,14 +973,19 @@ class Nexus(Family):
                                         and text["err"] == obs["file"]["err"]):
             fails.append(("nexus-file-vs-string", "write_nexus(path) and as_nexus differ"))
         if isinstance(text, dict):
-            if not expect_err:
+            if text["err"] == "LibraryError" and "buffer" in text["msg"].lower():
+                # as_newick of one of the trees overflowed its buffer estimate (F5): classify by
+                # the worst tree of the sequence
+                classes = set()
+                for x in bps[:-1]:
+                    par = gen_ts.parent_at(desc, x)
+                    for r in roots_of(par, flags):
+                        classes.add(buffer_class(par, flags, times, r))
+                cls = ("negative-times" if "negative-times" in classes else
+                       "fractional-internal-samples" if "fractional-internal-samples" in classes else "other")
+                fails.append(("nexus-newick-buffer:" + cls, text["msg"]))
+            elif not expect_err or text["err"] != "ValueError":
                 fails.append(("nexus-error:" + text["err"], text["msg"]))
-            elif text["err"] != "ValueError":
-                # buffer overflow inside a tree of a multi-root sequence etc.
-                if text["err"] == "LibraryError" and "buffer" in text["msg"].lower():
-                    fails.append(("nexus-buffer", text["msg"]))
-                else:
-                    fails.append(("nexus-error:" + text["err"], text["msg"]))
             return fails
         if expect_err:
             fails.append(("nexus-accepted", "multi-root tree or undefined alignments but no error"))
